@@ -9,7 +9,7 @@ def run(tier, seed):
         profiles=[("reload", 2, 250), ("reload", 3, 80), ("async", 2, 60)],
         thorough_profiles=[("reload", 2, 2000), ("reload", 3, 700), ("async", 2, 500)],
         mc_actions=("MAdd", "MSendCS", "MSendRAA", "MDeliver", "MSave", "MCrash"),
-        families=[("feecross", 300), ("skim", 200), ("chainsettle", 60), ("cfgreload", 150)], thorough_families=[("feecross", 3000), ("skim", 1500), ("chainsettle", 300), ("cfgreload", 1500)],
+        families=[("feecross", 300), ("skim", 200), ("chainsettle", 60), ("cfgreload", 150), ("evreload", 250)], thorough_families=[("feecross", 3000), ("skim", 1500), ("chainsettle", 300), ("cfgreload", 1500), ("evreload", 2500)],
         assumptions=cc.COMMON_ASSUMPTIONS + [
             "ChannelMonitor and ChannelMonitorUpdate are compared with the library's own ==; the ChannelManager by "
             "its public projection and by continuing the run on the re-read copy (every later event must still be a "
